@@ -401,6 +401,8 @@ impl Storage {
         let key = Key::Meta(LAST_STATE_KEY).into_vec();
         let mut value = total_difficulty.to_le_bytes().to_vec();
         value.extend(tip_header.as_slice());
+        #[cfg(nervosnetwork_ckb_light_client_verif)]
+        crate::verif_hooks::before_write("put_last_state");
         self.db
             .put(key, &value)
             .expect("db put last state should be ok");
@@ -429,6 +431,8 @@ impl Storage {
             value.extend(header.number().to_le_bytes());
             value.extend(header.hash().as_slice());
         }
+        #[cfg(nervosnetwork_ckb_light_client_verif)]
+        crate::verif_hooks::before_write("put_last_n_headers");
         self.db
             .put(key, &value)
             .expect("db put last n headers should be ok");
@@ -455,6 +459,8 @@ impl Storage {
     pub fn remove_matched_blocks(&self, start_number: u64) {
         let mut key = Key::Meta(MATCHED_FILTER_BLOCKS_KEY).into_vec();
         key.extend(start_number.to_be_bytes());
+        #[cfg(nervosnetwork_ckb_light_client_verif)]
+        crate::verif_hooks::before_write("delete_matched_blocks");
         self.db.delete(&key).expect("delete matched blocks");
     }
 
@@ -489,6 +495,8 @@ impl Storage {
             value.extend(block_hash.as_slice());
             value.push(u8::from(proved));
         }
+        #[cfg(nervosnetwork_ckb_light_client_verif)]
+        crate::verif_hooks::before_write("put_matched_blocks");
         self.db
             .put(key, &value)
             .expect("db put matched blocks should be ok");
@@ -587,6 +595,8 @@ impl Storage {
     pub fn update_min_filtered_block_number(&self, block_number: BlockNumber) {
         let key = Key::Meta(MIN_FILTERED_BLOCK_NUMBER).into_vec();
         let value = block_number.to_le_bytes();
+        #[cfg(nervosnetwork_ckb_light_client_verif)]
+        crate::verif_hooks::before_write("put_min_filtered_block_number");
         self.db
             .put(key, value)
             .expect("db put min filtered block number should be ok");
@@ -614,6 +624,8 @@ impl Storage {
     pub fn update_max_check_point_index(&self, index: CpIndex) {
         let key = Key::Meta(MAX_CHECK_POINT_INDEX).into_vec();
         let value = index.to_be_bytes();
+        #[cfg(nervosnetwork_ckb_light_client_verif)]
+        crate::verif_hooks::before_write("put_max_check_point_index");
         self.db
             .put(key, value)
             .expect("db put max check point index should be ok");
@@ -1282,6 +1294,8 @@ impl Batch {
     }
 
     fn commit(self) -> Result<()> {
+        #[cfg(nervosnetwork_ckb_light_client_verif)]
+        crate::verif_hooks::before_write("commit_batch");
         self.db.write(&self.wb)?;
         Ok(())
     }
